@@ -23,9 +23,10 @@ T == ndJsonDeserialize(IOEnv.TRACE)
 
 VARIABLES l,      \* next line of T to consume
           m,      \* m[o] = abstract map of container o (tokens), DOMAIN m = live containers
-          kind    \* kind[o] \in {"Table", "Tree"}
+          kind,   \* kind[o] \in {"Table", "Tree"}
+          sig     \* sig[o] = iteration order as last logged: a failed call must not disturb it
 
-vars == <<l, m, kind>>
+vars == <<l, m, kind, sig>>
 
 EmptyMap == [x \in {} |-> 0]
 Put(mm, k, v) == [x \in (DOMAIN mm) \cup {k} |-> IF x = k THEN v ELSE mm[x]]
@@ -120,22 +121,27 @@ Adopt(e, mnew) ==
 
 IsEv(op) == l <= Len(T) /\ T[l].op = op /\ l' = l + 1
 E == T[l]
+SigOf(e) == [o \in {e.objs[i].o : i \in 1..Len(e.objs)} |->
+               LET p == e.objs[CHOOSE i \in 1..Len(e.objs) : e.objs[i].o = o] IN p.it]
+SigSame(e) == \A i \in 1..Len(e.objs) : (e.objs[i].o \in DOMAIN sig /\ e.objs[i].full = 1) =>
+                 sig[e.objs[i].o] = e.objs[i].it        \* the same iteration order as before the failed call
 
 Step(mnew, knew) == /\ Judge(E, mnew, knew)
-                    /\ m' = Adopt(E, mnew) /\ kind' = knew
+                    /\ m' = Adopt(E, mnew) /\ kind' = knew /\ sig' = SigOf(E)
 
 (* a failing call: documented exception, every container exactly as before *)
 Fails(excs) == /\ E.exc \in excs
                /\ AllProjOK(E, m, kind) \/ Mode = "own"
                /\ OwnOK(E) \/ Mode # "own"
-               /\ UNCHANGED <<m, kind>>
+               /\ (Mode = "fail" => SigSame(E))
+               /\ UNCHANGED <<m, kind, sig>>
 
 -----------------------------------------------------------------------------
-Init == l = 1 /\ m = EmptyMap /\ kind = EmptyMap
+Init == l = 1 /\ m = EmptyMap /\ kind = EmptyMap /\ sig = EmptyMap
 
-Reset == IsEv("reset") /\ m' = EmptyMap /\ kind' = EmptyMap
+Reset == IsEv("reset") /\ m' = EmptyMap /\ kind' = EmptyMap /\ sig' = EmptyMap
 
-End == IsEv("end") /\ UNCHANGED <<m, kind>>
+End == IsEv("end") /\ UNCHANGED <<m, kind, sig>>
        /\ (Mode = "own" => (E.led = <<>> /\ E.lerr = 0))
 
 New == /\ IsEv("new") /\ E.exc = ""
